@@ -997,3 +997,296 @@ Proof.
   destruct (internal_paths_on_hide_lists s ps Hi) as [Hincl _].
   rewrite (is_hidden_resolved (fs_hide s) ip (Hincl _ Hp)) in H. discriminate.
 Qed.
+
+(* ====================================================================================
+   BLOCK: every address of a server block gets the protection of a single-address site
+   ==================================================================================== *)
+Lemma fold_keys_map : forall (b : block_site) dirs (l : list addr_state),
+  fold_left (fun sts name => keys_loop b name sts) dirs l = map (fun st => fold_left (addr_step b) dirs st) l.
+Proof.
+  intros b dirs. induction dirs as [|d r IH]; intro l; simpl.
+  - symmetry. apply map_id.
+  - rewrite IH. unfold keys_loop. rewrite map_map. reflexivity.
+Qed.
+
+Lemma map_repeat_c03 {A B} (f : A -> B) x n : map f (repeat x n) = repeat (f x) n.
+Proof. induction n as [|n IH]; simpl; [reflexivity|rewrite IH; reflexivity]. Qed.
+
+Lemma block_setups_repeat : forall dirs b n, block_setups dirs b n = repeat (addr_run dirs b) n.
+Proof. intros dirs b n. unfold block_setups. rewrite fold_keys_map, map_repeat_c03. reflexivity. Qed.
+
+Lemma nth_error_repeat_c03 {A} (x : A) : forall (n j : nat), (j < n)%nat -> nth_error (repeat x n) j = Some x.
+Proof.
+  induction n as [|n IH]; intros j Hj; [inversion Hj|].
+  destruct j as [|j]; simpl; [reflexivity|apply IH; apply Nat.succ_lt_mono; exact Hj].
+Qed.
+
+Lemma block_addresses_same : forall dirs b n,
+  length (block_setups dirs b n) = n /\
+  (forall j st, nth_error (block_setups dirs b n) j = Some st -> st = addr_run dirs b) /\
+  (forall j, (j < n)%nat -> nth_error (block_setups dirs b n) j = Some (addr_run dirs b)).
+Proof.
+  intros dirs b n. rewrite block_setups_repeat. split; [apply repeat_length|]. split.
+  - intros j st Hn. apply nth_error_In in Hn. apply repeat_spec in Hn. exact Hn.
+  - intros j Hj. apply nth_error_repeat_c03. exact Hj.
+Qed.
+
+Lemma addr_fold_setup : forall b dirs st,
+  as_setup (fold_left (addr_step b) dirs st) = fold_left (setup_step (bk_hide b)) dirs (as_setup st).
+Proof.
+  intros b dirs. induction dirs as [|d r IH]; intro st; simpl; [reflexivity|]. rewrite IH. reflexivity.
+Qed.
+
+Lemma addr_run_setup : forall dirs b, as_setup (addr_run dirs b) = run_setups dirs (bk_hide b).
+Proof. intros dirs b. unfold addr_run, run_setups. rewrite addr_fold_setup. reflexivity. Qed.
+
+Lemma addr_run_gen : forall h0 ps br orules,
+  addr_run gen_directives {| bk_hide := {| hs_initial := h0; hs_internal := Some ps; hs_browse := br |}; bk_rules := orules |} =
+  {| as_setup := {| ss_hidden := h0 ++ ps; ss_browse := if br then Some (h0 ++ ps) else None |};
+     as_internal := Some ps; as_rules := orules |}.
+Proof. intros h0 ps br orules. destruct br, orules; vm_compute; reflexivity. Qed.
+
+Lemma block_protection_on_every_address : forall b ps n j st,
+  hs_internal (bk_hide b) = Some ps ->
+  nth_error (block_setups gen_directives b n) j = Some st ->
+  incl ps (ss_hidden (as_setup st)) /\
+  (hs_browse (bk_hide b) = true -> exists h, ss_browse (as_setup st) = Some h /\ incl ps h) /\
+  as_internal st = Some ps /\ as_rules st = bk_rules b.
+Proof.
+  intros [[h0 oi br] orules] ps n j st Hi Hn. simpl in Hi. subst oi.
+  destruct (block_addresses_same gen_directives
+              {| bk_hide := {| hs_initial := h0; hs_internal := Some ps; hs_browse := br |}; bk_rules := orules |} n)
+    as [_ [Hsame _]].
+  rewrite (Hsame j st Hn), addr_run_gen. simpl. split; [apply incl_appr, incl_refl|]. split; [|split; reflexivity].
+  intro Hb. subst br. eexists. split; [reflexivity|apply incl_appr, incl_refl].
+Qed.
+
+Lemma block_hide_state : forall n j s, (j < n)%nat -> hide_state (Some (n, j)) s = hide_state None s.
+Proof.
+  intros n j s Hj. unfold hide_state.
+  destruct (block_addresses_same gen_directives {| bk_hide := s; bk_rules := None |} n) as [_ [_ Hnth]].
+  rewrite (Hnth j Hj). unfold option_map. rewrite addr_run_setup. reflexivity.
+Qed.
+
+Lemma block_once_variant_refuted : exists b ps n j st,
+  hs_internal (bk_hide b) = Some ps /\ ps <> [] /\
+  nth_error (block_setups_once gen_directives b n) j = Some st /\
+  as_internal st = Some ps /\ ss_hidden (as_setup st) = [] /\ ss_browse (as_setup st) = Some [].
+Proof.
+  exists {| bk_hide := {| hs_initial := []; hs_internal := Some [bs "/int"%string]; hs_browse := true |}; bk_rules := None |},
+         [bs "/int"%string], 2%nat, 1%nat.
+  eexists. split; [reflexivity|]. split; [discriminate|]. split; [vm_compute; reflexivity|].
+  split; [reflexivity|]. split; reflexivity.
+Qed.
+
+(* ====================================================================================
+   CRED: the credential check keeps nothing from one request to the next
+   ==================================================================================== *)
+Lemma assoc_In {A} : forall (l : list (bytes * A)) k v, assoc k l = Some v -> In (k, v) l.
+Proof.
+  induction l as [|[a x] r IH]; intros k v H; simpl in H; [discriminate|].
+  destruct (beq a k) eqn:E.
+  - apply beq_eq in E. injection H as <-. subst a. left. reflexivity.
+  - right. apply IH. exact H.
+Qed.
+
+Lemma assoc_set_same {A} : forall (l : list (bytes * A)) k v, assoc k (set_assoc k v l) = Some v.
+Proof.
+  induction l as [|[a x] r IH]; intros k v; simpl.
+  - rewrite beq_refl. reflexivity.
+  - destruct (beq a k) eqn:E; simpl; [rewrite beq_refl; reflexivity|rewrite E; apply IH].
+Qed.
+
+Lemma assoc_set_other {A} : forall (l : list (bytes * A)) k k' v, k' <> k -> assoc k' (set_assoc k v l) = assoc k' l.
+Proof.
+  induction l as [|[a x] r IH]; intros k k' v Hne; simpl.
+  - destruct (beq k k') eqn:E; [apply beq_eq in E; congruence|reflexivity].
+  - destruct (beq a k) eqn:E; simpl.
+    + apply beq_eq in E. subst a.
+      destruct (beq k k') eqn:E2; [apply beq_eq in E2; congruence|reflexivity].
+    + destruct (beq a k'); [reflexivity|apply IH; exact Hne].
+Qed.
+
+Lemma matcher_of_parse : forall H text user es,
+  parse_htpasswd text = Some es ->
+  matcher_ok H text user (match last_entry user es None with Some e => Some (enc_accepts H e) | None => None end).
+Proof.
+  intros H text user es Hp. unfold matcher_ok, file_accepts. rewrite Hp.
+  destruct (last_entry user es None); intro pw; reflexivity.
+Qed.
+
+Lemma get_matcher_parse_branch : forall H (d : disk) c fname user f used m c',
+  cache_honest c d -> stamps_known used c d -> assoc fname d = Some f ->
+  match (match parse_htpasswd (df_text f) with
+         | Some es => let p := {| pf_stamp := df_stamp f; pf_entries := es |} in Some (p, (fname, p) :: c)
+         | None => None
+         end) with
+  | None => (None, c)
+  | Some (p, c1) => match last_entry user (pf_entries p) None with
+                    | Some e => (Some (enc_accepts H e), c1)
+                    | None => (None, c1)
+                    end
+  end = (m, c') ->
+  matcher_ok H (df_text f) user m /\ cache_honest c' d /\ stamps_known used c' d.
+Proof.
+  intros H d c fname user f used m c' Hh Hk Hd Hg.
+  destruct (parse_htpasswd (df_text f)) as [es|] eqn:Hp.
+  - assert (Hc' : c' = (fname, {| pf_stamp := df_stamp f; pf_entries := es |}) :: c /\
+                  m = match last_entry user es None with Some e => Some (enc_accepts H e) | None => None end).
+    { simpl in Hg. destruct (last_entry user es None); injection Hg as <- <-; split; reflexivity. }
+    destruct Hc' as [-> ->]. split; [apply matcher_of_parse; exact Hp|]. split.
+    + intros fn p f' Ha Hd' Hs. simpl in Ha. destruct (beq fname fn) eqn:E.
+      * apply beq_eq in E. subst fn. injection Ha as <-. simpl. rewrite Hd in Hd'. injection Hd' as <-. exact Hp.
+      * eapply Hh; eassumption.
+    + destruct Hk as [Hkc Hkd]. split; [|exact Hkd].
+      intros fn p Ha. simpl in Ha. destruct (beq fname fn) eqn:E.
+      * apply beq_eq in E. subst fn. injection Ha as <-. simpl. apply Hkd. exact Hd.
+      * apply Hkc. exact Ha.
+  - injection Hg as <- <-. split; [|split; assumption].
+    intro pw. unfold file_accepts. rewrite Hp. reflexivity.
+Qed.
+
+Lemma get_matcher_spec : forall H (d : disk) c fname user f used m c',
+  cache_honest c d -> stamps_known used c d -> assoc fname d = Some f ->
+  get_matcher H d c fname user = (m, c') ->
+  matcher_ok H (df_text f) user m /\ cache_honest c' d /\ stamps_known used c' d.
+Proof.
+  intros H d c fname user f used m c' Hh Hk Hd Hg. unfold get_matcher in Hg. rewrite Hd in Hg.
+  destruct (assoc fname c) as [p|] eqn:Hc.
+  - destruct (pf_stamp p =? df_stamp f) eqn:Es.
+    + apply N.eqb_eq in Es. pose proof (Hh fname p f Hc Hd Es) as Hp.
+      assert (Hm : m = match last_entry user (pf_entries p) None with Some e => Some (enc_accepts H e) | None => None end /\ c' = c).
+      { destruct (last_entry user (pf_entries p) None); injection Hg as <- <-; split; reflexivity. }
+      destruct Hm as [-> ->]. split; [apply matcher_of_parse; exact Hp|split; assumption].
+    + eapply get_matcher_parse_branch; eassumption.
+  - eapply get_matcher_parse_branch; eassumption.
+Qed.
+
+Lemma setup_rules_spec : forall H (d : disk) used rs c ols c',
+  cache_honest c d -> stamps_known used c d ->
+  setup_rules H d c rs = (ols, c') ->
+  cache_honest c' d /\ stamps_known used c' d /\
+  match ols with
+  | Some ls => rules_loadable H d rs = true /\ forall auth, map (rule_for auth) ls = map (pure_rule H d auth) rs
+  | None => rules_loadable H d rs = false
+  end.
+Proof.
+  intros H d used rs. induction rs as [|r rest IH]; intros c ols c' Hh Hk Hs.
+  - simpl in Hs. injection Hs as <- <-. split; [exact Hh|]. split; [exact Hk|]. split; [reflexivity|intro auth; reflexivity].
+  - simpl in Hs. destruct (cr_pw r) as [p|f] eqn:Hpw.
+    + destruct (setup_rules H d c rest) as [ls c2] eqn:Hr.
+      destruct (IH c ls c2 Hh Hk Hr) as [Hh2 [Hk2 Hrest]].
+      injection Hs as <- <-. split; [exact Hh2|]. split; [exact Hk2|].
+      destruct ls as [ls|]; simpl.
+      * destruct Hrest as [Hl Hm]. split; [rewrite Hpw; exact Hl|].
+        intro auth. rewrite <- Hm. f_equal. unfold rule_for, pure_rule, pure_accept. simpl. rewrite Hpw. reflexivity.
+      * rewrite Hpw. exact Hrest.
+    + destruct (get_matcher H d c f (cr_user r)) as [m c1] eqn:Hg.
+      destruct (assoc f d) as [df|] eqn:Hd.
+      * destruct (get_matcher_spec H d c f (cr_user r) df used m c1 Hh Hk Hd Hg) as [Hm [Hh1 Hk1]].
+        destruct m as [acc|].
+        -- destruct (setup_rules H d c1 rest) as [ls c2] eqn:Hr.
+           destruct (IH c1 ls c2 Hh1 Hk1 Hr) as [Hh2 [Hk2 Hrest]].
+           injection Hs as <- <-. split; [exact Hh2|]. split; [exact Hk2|].
+           simpl in Hm.
+           destruct ls as [ls|]; simpl.
+           ++ destruct Hrest as [Hl Hmm]. split; [rewrite Hpw, Hd, (Hm []); exact Hl|].
+              intro auth. rewrite <- Hmm. f_equal. unfold rule_for, pure_rule, pure_accept. simpl. rewrite Hpw, Hd.
+              destruct auth as [a|]; [|reflexivity]. rewrite (Hm (c_pw a)). reflexivity.
+           ++ rewrite Hpw, Hd, (Hm []). exact Hrest.
+        -- injection Hs as <- <-. split; [exact Hh1|]. split; [exact Hk1|].
+           simpl in Hm. simpl. rewrite Hpw, Hd, (Hm []). reflexivity.
+      * unfold get_matcher in Hg. rewrite Hd in Hg. injection Hg as <- <-.
+        injection Hs as <- <-. split; [exact Hh|]. split; [exact Hk|]. simpl. rewrite Hpw, Hd. reflexivity.
+Qed.
+
+Lemma stamps_known_weaken : forall used x c d, stamps_known used c d -> stamps_known (x :: used) c d.
+Proof.
+  intros used x c d [Hc Hd]. split; intros; right; [eapply Hc|eapply Hd]; eassumption.
+Qed.
+
+Lemma credential_check_is_stateless : forall evs H cs rs s used,
+  srv_ok H rs used s -> fresh_stamps used evs ->
+  srv_run H cs rs s evs = ref_run H cs rs (sv_disk s) (sv_loaded s) evs.
+Proof.
+  induction evs as [|e r IH]; intros H cs rs s used Hok Hf; [reflexivity|].
+  destruct e as [opt path auth|fname f|].
+  - simpl. unfold live_decide, pure_decide. rewrite (ok_live _ _ _ _ Hok auth). f_equal.
+    apply (IH H cs rs s used Hok Hf).
+  - simpl in Hf. destruct Hf as [Hnew Hf]. simpl.
+    set (s' := {| sv_disk := set_assoc fname f (sv_disk s); sv_cache := sv_cache s; sv_live := sv_live s; sv_loaded := sv_loaded s |}).
+    assert (Hok' : srv_ok H rs ((fname, df_stamp f) :: used) s').
+    { destruct Hok as [Hh [Hkc Hkd] Hl]. constructor; simpl.
+      - intros fn p f' Ha Hd Hs.
+        destruct (beq fn fname) eqn:E.
+        + apply beq_eq in E. subst fn. rewrite assoc_set_same in Hd. injection Hd as <-.
+          exfalso. apply Hnew. rewrite <- Hs. apply Hkc. exact Ha.
+        + rewrite assoc_set_other in Hd; [eapply Hh; eassumption|].
+          intro Heq. subst fn. rewrite beq_refl in E. discriminate.
+      - split.
+        + intros fn p Ha. right. apply Hkc. exact Ha.
+        + intros fn f' Hd. destruct (beq fn fname) eqn:E.
+          * apply beq_eq in E. subst fn. rewrite assoc_set_same in Hd. injection Hd as <-. left. reflexivity.
+          * rewrite assoc_set_other in Hd; [right; apply Hkd; exact Hd|].
+            intro Heq. subst fn. rewrite beq_refl in E. discriminate.
+      - exact Hl. }
+    apply (IH H cs rs s' _ Hok' Hf).
+  - simpl in Hf. simpl.
+    destruct (setup_rules H (sv_disk s) (sv_cache s) rs) as [ols c] eqn:Hs.
+    destruct Hok as [Hh Hk Hl].
+    destruct (setup_rules_spec H (sv_disk s) used rs (sv_cache s) ols c Hh Hk Hs) as [Hh' [Hk' Hres]].
+    destruct ols as [ls|].
+    + destruct Hres as [Hload Hm]. rewrite Hload.
+      set (s' := {| sv_disk := sv_disk s; sv_cache := c; sv_live := ls; sv_loaded := sv_disk s |}).
+      apply (IH H cs rs s' used); [|exact Hf]. constructor; simpl; assumption.
+    + rewrite Hres.
+      set (s' := {| sv_disk := sv_disk s; sv_cache := c; sv_live := sv_live s; sv_loaded := sv_loaded s |}).
+      apply (IH H cs rs s' used); [|exact Hf]. constructor; simpl; assumption.
+Qed.
+
+Lemma credential_check_stateless_from_start : forall H cs rs d0 ls c evs,
+  setup_rules H d0 [] rs = (Some ls, c) -> fresh_stamps (stamps_of d0) evs ->
+  srv_run H cs rs {| sv_disk := d0; sv_cache := c; sv_live := ls; sv_loaded := d0 |} evs = ref_run H cs rs d0 d0 evs.
+Proof.
+  intros H cs rs d0 ls c evs Hs Hf.
+  assert (Hh0 : cache_honest [] d0) by (intros fn p f Ha; discriminate).
+  assert (Hk0 : stamps_known (stamps_of d0) [] d0).
+  { split; [intros fn p Ha; discriminate|].
+    intros fn f Hd. apply assoc_In in Hd. unfold stamps_of.
+    apply (in_map (fun e => (fst e, df_stamp (snd e)))) in Hd. exact Hd. }
+  destruct (setup_rules_spec H d0 (stamps_of d0) rs [] (Some ls) c Hh0 Hk0 Hs) as [Hh [Hk [_ Hm]]].
+  apply (credential_check_is_stateless evs H cs rs {| sv_disk := d0; sv_cache := c; sv_live := ls; sv_loaded := d0 |} (stamps_of d0)); [|exact Hf].
+  constructor; simpl; assumption.
+Qed.
+
+(* without fresh stamps the remembered parse answers for a file it is not the parse of *)
+Lemma stale_stamp_refuted : exists H cs rs d0 evs,
+  match setup_rules H d0 [] rs with
+  | (Some ls, c) => srv_run H cs rs {| sv_disk := d0; sv_cache := c; sv_live := ls; sv_loaded := d0 |} evs
+                    <> ref_run H cs rs d0 d0 evs
+  | (None, _) => False
+  end.
+Proof.
+  exists (tbl_hashes []), false,
+         [ {| cr_resources := [bs "/a"%string]; cr_exclude := []; cr_user := bs "u"%string; cr_pw := PwFile (bs "f"%string) |} ],
+         [ (bs "f"%string, {| df_stamp := 1; df_text := bs "u:old"%string |}) ],
+         [ EWrite (bs "f"%string) {| df_stamp := 1; df_text := bs "u:new"%string |}; EReload;
+           EReq false (bs "/a/x"%string) (Some {| c_user := bs "u"%string; c_pw := bs "new"%string |}) ].
+  vm_compute. discriminate.
+Qed.
+
+(* a password that no protecting rule OF THE USER NAMED accepts opens nothing, whoever else's it is *)
+Lemma password_of_another_user_refused : forall H d rs cs path a,
+  (exists r, In r rs /\ protects cs path (pure_rule H d (Some a) r) = true) ->
+  (forall r, In r rs -> protects cs path (pure_rule H d (Some a) r) = true ->
+             cr_user r = c_user a -> pure_accept H d r (c_pw a) = false) ->
+  pure_decide H d rs cs false path (Some a) = Deny401.
+Proof.
+  intros H d rs cs path a [r0 [Hin0 Hp0]] Hno. unfold pure_decide.
+  destruct (basicauth_decide cs false path (map (pure_rule H d (Some a)) rs)) eqn:E; [|reflexivity].
+  exfalso. apply decide_pass_iff in E. destruct E as [E|[E|E]]; [discriminate| |].
+  - rewrite (E _ (in_map _ _ _ Hin0)) in Hp0. discriminate.
+  - destruct E as [ru [Hin [Hp Hc]]]. apply in_map_iff in Hin. destruct Hin as [r [<- Hin]].
+    simpl in Hc. apply Bool.andb_true_iff in Hc. destruct Hc as [Hu Hacc]. apply beq_eq in Hu.
+    rewrite (Hno r Hin Hp (eq_sym Hu)) in Hacc. discriminate.
+Qed.
